@@ -12,102 +12,184 @@ use vibrato::verif_hooks::*;
 // ---------------------------------------------------------------------------------------
 // family 1
 // ---------------------------------------------------------------------------------------
+/// A symbolic scalar value of the given UTF-8 width, written as its bytes into `buf` at `pos`.
+/// The *widths* are the concrete structure of an instance; the code points are symbolic.
 #[cfg(kani)]
-fn offsets(n: usize) {
-    let mut s = String::with_capacity(16);
-    let mut cs = ['\0'; 3];
-    for i in 0..n {
-        let c: char = kani::any();
-        cs[i] = c;
-        s.push(c);
+fn put_char(buf: &mut [u8; 16], pos: usize, width: usize) -> char {
+    let cp: u32 = kani::any();
+    match width {
+        1 => {
+            kani::assume(cp < 0x80);
+            buf[pos] = cp as u8;
+        }
+        2 => {
+            kani::assume(cp >= 0x80 && cp < 0x800);
+            buf[pos] = 0xC0 | (cp >> 6) as u8;
+            buf[pos + 1] = 0x80 | (cp & 0x3F) as u8;
+        }
+        3 => {
+            kani::assume(cp >= 0x800 && cp < 0x10000 && !(cp >= 0xD800 && cp < 0xE000));
+            buf[pos] = 0xE0 | (cp >> 12) as u8;
+            buf[pos + 1] = 0x80 | ((cp >> 6) & 0x3F) as u8;
+            buf[pos + 2] = 0x80 | (cp & 0x3F) as u8;
+        }
+        _ => {
+            kani::assume(cp >= 0x10000 && cp < 0x110000);
+            buf[pos] = 0xF0 | (cp >> 18) as u8;
+            buf[pos + 1] = 0x80 | ((cp >> 12) & 0x3F) as u8;
+            buf[pos + 2] = 0x80 | ((cp >> 6) & 0x3F) as u8;
+            buf[pos + 3] = 0x80 | (cp & 0x3F) as u8;
+        }
     }
+    match char::from_u32(cp) {
+        Some(c) => c,
+        None => unreachable!(),
+    }
+}
+
+#[cfg(kani)]
+fn offsets(widths: &[usize]) {
+    let n = widths.len();
+    let mut buf = [0u8; 16];
+    let mut cs = ['\0'; 3];
+    let mut total = 0;
+    for i in 0..n {
+        cs[i] = put_char(&mut buf, total, widths[i]);
+        total += widths[i];
+    }
+    // the bytes are valid UTF-8 by construction
+    let s: &str = unsafe { core::str::from_utf8_unchecked(&buf[..total]) };
     let mut table = Vec::with_capacity(5);
     for _ in 0..5 {
         table.push(CharInfo::verif_from_raw(kani::any()));
     }
     let prop = CharProperty::verif_from_parts(table, Vec::new());
-    let mut sent = Sentence::new();
-    sent.set_sentence(&s);
-    sent.compile(&prop);
-    assert!(sent.len_char() == n);
+    // buffers with spare capacity: symex cannot know that only n characters will be decoded from
+    // the symbolic bytes and would otherwise explore Vec growth (realloc) on every push
+    let mut sent = Sentence::verif_from_parts(
+        String::with_capacity(16),
+        Vec::with_capacity(16),
+        Vec::with_capacity(17),
+        Vec::with_capacity(16),
+        Vec::with_capacity(16),
+    );
+    sent.set_sentence(s);
+    // `compile` = compute_basic + category lookup + grouping; the latter two are decided on their
+    // own (c03_char_info_lookup, c03_groupable_*), and `resize` with a symbolic length is heavy
+    sent.verif_compute_basic();
+    let _ = &prop;
+    assert!(sent.len_char() == n, "number of characters");
     let mut b = 0;
     for i in 0..n {
-        assert!(sent.chars()[i] == cs[i]);
-        assert!(sent.byte_position(i) == b);
-        b += cs[i].len_utf8();
+        assert!(sent.chars()[i] == cs[i], "decoded character");
+        assert!(sent.byte_position(i) == b, "char-to-byte offset");
+        b += widths[i];
     }
-    assert!(sent.byte_position(n) == b && b == s.len());
-    assert!(sent.raw().len() == s.len());
-    kani::cover!(n >= 2 && cs[0].len_utf8() == 4 && cs[1].len_utf8() == 1);
-    kani::cover!(cs[n - 1].len_utf8() == 3);
+    assert!(sent.byte_position(n) == total);
+    assert!(sent.raw().len() == total);
+    kani::cover!(cs[0] as u32 > 0x7F || widths[0] == 1);
     core::mem::forget(sent);
     core::mem::forget(prop);
-    core::mem::forget(s);
 }
 
-//@ c01_offsets_n1 {"desc":"char-to-byte offset table for one arbitrary Unicode scalar","bounds":"N=1 character, any scalar value (1-4 byte UTF-8)","symbolic":"the character, the category table","functions":["Sentence::set_sentence","Sentence::compile","Sentence::compute_basic","Sentence::byte_position"],"unwind":6,"timeout":600,"covers":"any"}
+//@ c01_offsets_w14 {"desc":"char-to-byte offset table: a 1-byte then a 4-byte (astral) character, any code points of those widths","bounds":"N=2, UTF-8 widths [1,4]","symbolic":"both code points, the category table","functions":["Sentence::set_sentence","Sentence::compile","Sentence::compute_basic","Sentence::byte_position"],"unwind":7,"timeout":900}
 #[cfg(kani)]
 #[kani::proof]
-fn c01_offsets_n1() {
-    offsets(1)
+fn c01_offsets_w14() {
+    offsets(&[1, 4])
 }
 
-//@ c01_offsets_n2 {"desc":"char-to-byte offset table for two arbitrary Unicode scalars (all width mixes, astral included)","bounds":"N=2 characters","symbolic":"both characters, the category table","functions":["Sentence::set_sentence","Sentence::compile","Sentence::compute_basic","Sentence::byte_position"],"unwind":6,"timeout":900}
+//@ c01_offsets_w32 {"desc":"char-to-byte offset table: a 3-byte then a 2-byte character","bounds":"N=2, UTF-8 widths [3,2]","symbolic":"both code points, the category table","functions":["Sentence::set_sentence","Sentence::compile","Sentence::compute_basic","Sentence::byte_position"],"unwind":7,"timeout":900}
 #[cfg(kani)]
 #[kani::proof]
-fn c01_offsets_n2() {
-    offsets(2)
+fn c01_offsets_w32() {
+    offsets(&[3, 2])
 }
 
-//@ c01_offsets_n3 {"tier":"thorough","desc":"char-to-byte offset table for three arbitrary Unicode scalars","bounds":"N=3 characters","symbolic":"all characters, the category table","functions":["Sentence::set_sentence","Sentence::compile","Sentence::compute_basic","Sentence::byte_position"],"unwind":7,"timeout":1800}
+//@ c01_offsets_w413 {"tier":"thorough","desc":"char-to-byte offset table: widths 4,1,3","bounds":"N=3, UTF-8 widths [4,1,3]","symbolic":"all code points, the category table","functions":["Sentence::set_sentence","Sentence::compile","Sentence::compute_basic","Sentence::byte_position"],"unwind":8,"timeout":1800}
 #[cfg(kani)]
 #[kani::proof]
-fn c01_offsets_n3() {
-    offsets(3)
+fn c01_offsets_w413() {
+    offsets(&[4, 1, 3])
+}
+
+//@ c01_offsets_w242 {"tier":"thorough","desc":"char-to-byte offset table: widths 2,4,2","bounds":"N=3, UTF-8 widths [2,4,2]","symbolic":"all code points, the category table","functions":["Sentence::set_sentence","Sentence::compile","Sentence::compute_basic","Sentence::byte_position"],"unwind":8,"timeout":1800}
+#[cfg(kani)]
+#[kani::proof]
+fn c01_offsets_w242() {
+    offsets(&[2, 4, 2])
 }
 
 const S_MIN: Spec = Spec { sys: L_A, user: None, cats: CATS_MIX, unk_mult: &[1, 1, 1], nr: 1, nl: 1 };
 
-//@ c01_token_accessors {"desc":"Token::range_char/range_byte/surface agree with each other and with the input for an arbitrary stored node over an arbitrary 2-character sentence","bounds":"N=2 symbolic characters, one stored node with arbitrary start<end<=2","symbolic":"characters, node span","functions":["Token::range_char","Token::range_byte","Token::surface","Worker::token","Worker::num_tokens","Sentence::byte_position"],"unwind":6,"fs":2048,"timeout":900}
+//@ c01_token_accessors {"desc":"every Token accessor reflects the stored node and the sentence: range_char, range_byte, surface agree with one another and with the input; ids/total_cost come from the node; feature/word_cost/lex_type are those of the entry named by word_idx","bounds":"2-character sentence of widths [3,1] with symbolic code points; one stored node with arbitrary span start<end<=2 and arbitrary entry of a 3-entry dictionary","symbolic":"code points, node span, lexicon type, word id, ids, cost; dictionary costs/ids","functions":["Token::range_char","Token::range_byte","Token::surface","Token::feature","Token::lex_type","Token::left_id","Token::right_id","Token::word_cost","Token::total_cost","Token::word_idx","Worker::token","Worker::num_tokens","TokenIter::next","Dictionary::word_feature","Dictionary::word_param"],"unwind":7,"fs":2048,"timeout":900}
 #[cfg(kani)]
 #[kani::proof]
 fn c01_token_accessors() {
     let tok_owned = tokenizer_of(&S_MIN, false, 0);
     let tok = &tok_owned;
     let mut w = tok.new_worker();
-    let c0: char = kani::any();
-    let c1: char = kani::any();
-    let mut s = String::with_capacity(16);
-    s.push(c0);
-    s.push(c1);
-    w.verif_sent_mut().set_sentence(&s);
+    let mut buf = [0u8; 16];
+    let c0 = put_char(&mut buf, 0, 3);
+    let c1 = put_char(&mut buf, 3, 1);
+    let s: &str = unsafe { core::str::from_utf8_unchecked(&buf[..4]) };
+    w.verif_sent_mut().set_sentence(s);
     w.verif_sent_mut().verif_compute_basic();
     let start = any_below(2);
     let end: usize = kani::any();
     kani::assume(end > start && end <= 2);
+    // which entry the node names: the system word 0, or unknown entry 0..2
+    let unknown: bool = kani::any();
+    let wid: u32 = if unknown { any_below(3) as u32 } else { 0 };
     let mut nd = Node::default();
     nd.start_word = start;
     nd.start_node = start;
+    nd.lex_type = if unknown { LexType::Unknown } else { LexType::System };
+    nd.word_id = wid;
+    nd.left_id = kani::any();
+    nd.right_id = kani::any();
+    nd.min_cost = kani::any();
+    let (lid, rid, mc) = (nd.left_id, nd.right_id, nd.min_cost);
     w.verif_top_nodes_mut().push((end, nd));
     assert!(w.num_tokens() == 1);
     let t = w.token(0);
     let rc = t.range_char();
     assert!(rc.start == start && rc.end == end);
-    let l0 = c0.len_utf8();
-    let l1 = c1.len_utf8();
-    let bs = if start == 0 { 0 } else { l0 };
-    let be = if end == 1 { l0 } else { l0 + l1 };
+    let bs = if start == 0 { 0 } else { 3 };
+    let be = if end == 1 { 3 } else { 4 };
     let rb = t.range_byte();
-    assert!(rb.start == bs && rb.end == be);
+    assert!(rb.start == bs && rb.end == be, "byte range disagrees with char range");
     let sf = t.surface();
     assert!(sf.len() == be - bs);
-    let mut it = sf.chars();
-    let first = it.next();
-    assert!(first == Some(if start == 0 { c0 } else { c1 }));
-    kani::cover!(start == 0 && end == 2 && l0 == 4 && l1 == 2);
+    let first = sf.chars().next();
+    assert!(first == Some(if start == 0 { c0 } else { c1 }), "surface is not the input slice");
+    assert!(t.left_id() == lid && t.right_id() == rid && t.total_cost() == mc);
+    assert!(t.lex_type() == (if unknown { LexType::Unknown } else { LexType::System }));
+    assert!(t.word_idx().word_id == wid);
+    let d = tok.dictionary();
+    let f = t.feature().as_bytes();
+    assert!(f.len() == 2 && f[0] == (if unknown { b'k' } else { b's' }) && f[1] == b'0' + wid as u8,
+        "feature is not that of the named entry");
+    let want_cost = if unknown {
+        let es = d.verif_unk_handler().verif_entries();
+        let mut c = 0i16;
+        for e in 0..3 {
+            if e == wid as usize {
+                c = es[e].word_cost;
+            }
+        }
+        c
+    } else {
+        d.verif_system_lexicon().word_param(WordIdx { lex_type: LexType::System, word_id: 0 }).word_cost
+    };
+    assert!(t.word_cost() == want_cost, "word cost is not that of the named entry");
+    let mut it = w.token_iter();
+    assert!(it.next().is_some());
+    assert!(it.next().is_none());
+    kani::cover!(unknown && wid == 2 && start == 1);
+    kani::cover!(!unknown && start == 0 && end == 2);
     core::mem::forget(w);
     core::mem::forget(tok_owned);
-    core::mem::forget(s);
 }
 
 // ---------------------------------------------------------------------------------------
